@@ -7,6 +7,7 @@ mod pipeline;
 mod refsem;
 mod space;
 mod textmodel;
+mod validate;
 
 use explore::{check_main, replay_main, worker_main, Engine, Tier};
 
